@@ -181,7 +181,26 @@ def classify(runner, monitors, episode):
     return nontrivial, classes
 
 
-CHECK = EpisodeCheck(PROPERTY_ID, episode_st(P), make_monitors, evaluate, classify, quick=900, thorough=14000,
+class PClean(P):
+    """fault-free simultaneous boots (schedules still perturbed): the election outcome is unique"""
+    sync_sets = ('LIST', 'STRICT', 'STRICT,LIST')
+    op_rate = 0.0
+    late_boot = 0.0
+    steps_max = 40
+    warmups = (0,)
+
+
+class PRetention(P):
+    """agreed Master after a full warm-up, then only crashes / restarts (retention oracle applicable when they spare
+    the Master)"""
+    fault_ops = ('crash', 'restart', 'restart', 'boot')
+    warmups = (60,)
+    late_boot = 0.0
+    n_min = 3
+
+
+CHECK = EpisodeCheck(PROPERTY_ID, st.one_of(episode_st(P), episode_st(P), episode_st(PRetention), episode_st(PClean)),
+                     make_monitors, evaluate, classify, quick=900, thorough=14000,
                      suffix_kwargs={'boot_dead': None})
 
 
